@@ -461,6 +461,13 @@ pub fn scrypt(password: &[u8], salt: &[u8], n: u32, r: u32, p: u32, dk_len: usiz
     scrypt::scrypt(password, salt, n as usize, r as usize, p as usize, dk_len)
 }
 
+/// Verification hook (off unless built with `--cfg finfet_kestrel_verif`):
+/// the crate-private Salsa20/8 core of scrypt on one 64-byte block.
+#[cfg(finfet_kestrel_verif)]
+pub fn verif_salsa20_8(block: &[u8]) -> Vec<u8> {
+    scrypt::verif_salsa20_8(block)
+}
+
 /// Generates the specified amount of bytes from a CSPRNG
 pub fn secure_random(len: usize) -> Vec<u8> {
     let mut data = vec![0u8; len];
